@@ -138,17 +138,19 @@ Proof. exact args_positional_lemma. Qed.
 Print Assumptions C16_args_positional.
 
 (* non-vacuity: the hypotheses are met by concrete inputs on which the interesting paths are taken *)
+From Coq Require Import String.
 Open Scope string_scope.
 Example C16_nonvacuous :
   let w := common.Sexp.codes in
+  let a := w "a" in let b := w "b" in
   (* [[],{"a":[1,{}]}] : nested empty containers, sibling after a nested close *)
   let d := VArr (VCons (VArr VNil) (VCons (VObj (MCons (w "a") (VArr (VCons (VS (SNum (w "1"))) (VCons (VObj MNil) VNil))) MNil)) VNil)) in
   List.length (tostream_doc_order d) = 6%nat
-  /\ stream_events (firstn 5 (tokens d)) EndErr = trace_of (firstn 2 (tostream_doc_order d)) Err
+  /\ stream_events (firstn 7 (tokens d)) EndErr = trace_of (firstn 2 (tostream_doc_order d)) Err
   /\ items false [w "--arg"; w "a"; w "1"; w "$ARGS"; w "--args"; w "x"; w "--argjson"; w "a"; w "2"; w "--jsonargs"; w "3"; w "--args"; w "y"]
      = Some [IMap MArg (w "a") (w "1"); IPlain (w "$ARGS"); IPos PArgs; IPlain (w "x"); IMap MArgJSON (w "a") (w "2");
              IPos PJSONArgs; IPlain (w "3"); IPos PArgs; IPlain (w "y")]
   /\ parse_args [w "--arg"; w "a"; w "1"; w "$ARGS"; w "--args"; w "x"; w "--argjson"; w "a"; w "2"; w "--jsonargs"; w "3"; w "--args"; w "y"]
      = AOk [w "$ARGS"] [(w "a", AStr (w "1"))] [Some (AStr (w "x")); Some (AJson (w "3")); Some (AStr (w "y"))] []
-  /\ lines (w "a" ++ [13; 10; 10] ++ w "b")%N = [w "a" ++ [13%N]; []; w "b"].
+  /\ lines (a ++ [13%N; 10%N; 10%N] ++ b)%list = [(a ++ [13%N])%list; []; b].
 Proof. vm_compute. repeat split. Qed.
